@@ -71,6 +71,8 @@ type IndexChange struct {
 	Create *IndexSpec `json:"create,omitempty"`
 	Delete string     `json:"delete,omitempty"`
 	Update string     `json:"update,omitempty"` // UpdateGlobalSecondaryIndexAction (new throughput) on the named index
+	// DeleteUnnamed: a Delete action WITHOUT an index name (a nil pointer in the SDK structure)
+	DeleteUnnamed bool `json:"deleteunnamed,omitempty"`
 }
 
 // Op is an abstract operation. One struct for all kinds keeps journals and replays simple.
